@@ -214,7 +214,13 @@ def _case_cuckoo(rng, tmp, counting):
     fsz = rng.choice([1, 1, 2, 4])
     swaps = rng.choice([5, 50, 500])
     pyrandom.seed(rng.randrange(2**32))
-    obj = cls(capacity=cap, bucket_size=b, max_swaps=swaps, finger_size=fsz, auto_expand=True)
+    by_rate = rng.random() < 0.4
+    rate = rng.choice([0.1, 0.05, 0.01, 0.001, 0.0001])
+    if by_rate:
+        b = rng.choice([1, 2, 3, 4, 6, 8])
+        obj = cls.init_error_rate(rate, capacity=cap, bucket_size=b, max_swaps=swaps, auto_expand=True)
+    else:
+        obj = cls(capacity=cap, bucket_size=b, max_swaps=swaps, finger_size=fsz, auto_expand=True)
     keys = ["c%d" % rng.randrange(5000) for _ in range(rng.randint(1, 2 * cap * b))]
     members = keys[: max(1, len(keys) * 2 // 3)]
     from probables.exceptions import CuckooFilterFullError
@@ -228,7 +234,7 @@ def _case_cuckoo(rng, tmp, counting):
         pass  # a refused insertion is legitimate; the round trip is checked on the state reached
     for k in members[: len(members) // 4]:
         obj.remove(k)
-    desc = f"{cls.__name__}(capacity={cap}, bucket_size={b}, finger_size={fsz}, max_swaps={swaps}) after {len(members)} adds"
+    desc = f"{cls.__name__}(capacity={cap}, bucket_size={b}, " + (f"error_rate={rate}" if by_rate else f"finger_size={fsz}") + f", max_swaps={swaps}) after {len(members)} adds"
     chans, path = _export_channels(obj, tmp, "ck")
     probs = []
     if len(set(chans.values())) != 1:
@@ -236,7 +242,10 @@ def _case_cuckoo(rng, tmp, counting):
     er = obj.error_rate
 
     def with_params(new):
-        new.fingerprint_size = fsz
+        if by_rate:
+            new._set_error_rate(rate)
+        else:
+            new.fingerprint_size = fsz
         return new
 
     loaders = {
@@ -244,6 +253,9 @@ def _case_cuckoo(rng, tmp, counting):
         "filepath": lambda: with_params(cls(filepath=path)),
         "load_error_rate": lambda: cls.load_error_rate(error_rate=er, filepath=path),
     }
+    if by_rate:
+        loaders["frombytes(error_rate)"] = lambda: cls.frombytes(chans["bytes"], error_rate=rate)
+        loaders["load_error_rate(rate)"] = lambda: cls.load_error_rate(error_rate=rate, filepath=path)
     for name, ld in loaders.items():
         res = core.call(ld)
         if res[0] == "err":
@@ -254,6 +266,8 @@ def _case_cuckoo(rng, tmp, counting):
             probs.append(f"load via {name} returned {type(new).__name__}")
         if (new.capacity, new.bucket_size, new.max_swaps, new.elements_added) != (obj.capacity, obj.bucket_size, obj.max_swaps, obj.elements_added):
             probs.append(f"load via {name}: capacity/bucket_size/max_swaps/elements_added differ: {(new.capacity, new.bucket_size, new.max_swaps, new.elements_added)} vs {(obj.capacity, obj.bucket_size, obj.max_swaps, obj.elements_added)}")
+        if by_rate and "rate" in name and new.fingerprint_size_bits != obj.fingerprint_size_bits:
+            probs.append(f"load via {name}: fingerprint size {new.fingerprint_size_bits} bits instead of {obj.fingerprint_size_bits} for the same error rate (bucket_size {obj.bucket_size})")
         if counting and new.unique_elements != obj.unique_elements:
             probs.append(f"load via {name}: unique_elements differ")
         if name != "load_error_rate" or new.fingerprint_size_bits == obj.fingerprint_size_bits:
